@@ -3,7 +3,7 @@ from typing import Dict, Tuple, Any, Union, Type, Optional, ForwardRef
 
 from pedantic.constants import TypeVar, TYPE_VAR_METHOD_NAME, ReturnType, TYPE_VAR_SELF
 from pedantic.exceptions import PedanticCallWithArgsException, PedanticTypeCheckException
-from pedantic.type_checking_logic.check_types import assert_value_matches_type, _has_required_type_arguments
+from pedantic.type_checking_logic.check_types import assert_value_matches_type, _has_required_type_arguments, _describe
 from pedantic.models.decorated_function import DecoratedFunction
 from pedantic.models.generator_wrapper import GeneratorWrapper
 
@@ -86,7 +86,7 @@ class FunctionCall:
     def assert_uses_kwargs(self) -> None:
         if self.func.should_have_kwargs and self.args_without_self:
             raise PedanticCallWithArgsException(
-                f'{self.func.err}Use kwargs when you call function {self.func.name}. Args: {self.args_without_self}')
+                f'{self.func.err}Use kwargs when you call function {self.func.name}. Args: {_describe(self.args_without_self)}')
 
     def check_types(self) -> ReturnType:
         self._check_types_of_arguments()
@@ -189,8 +189,10 @@ class FunctionCall:
                 wrapped=result, expected_type=expected_result_type, err_msg=self.func.err, type_vars=self.type_vars,
                 context=self._context)
 
-        msg = f'{self.func.err}Type hint of return value is incorrect: Expected type {expected_result_type} ' \
-              f'but {result} of type {type(result)} was the return value which does not match.'
+        def msg() -> str:  # built only if the result does not match: a conforming result is never formatted
+            return f'{self.func.err}Type hint of return value is incorrect: Expected type {expected_result_type} ' \
+                   f'but {_describe(result)} of type {type(result)} was the return value which does not match.'
+
         assert_value_matches_type(
             value=result,
             type_=expected_result_type,
